@@ -249,6 +249,9 @@ def apply_fault(base_bytes, fault, tmp):
             pass
         (folder / "Index.zip").write_bytes(index_zip)
         for n, d in others:
+            if n.endswith("/"):
+                (folder / n).mkdir(parents=True, exist_ok=True)   # a zip that lists its directories (issue-32)
+                continue
             if sub["kind"] == "drop_loose" and n == sub["member"]:
                 continue
             if sub["kind"] == "garble_loose" and n == sub["member"]:
